@@ -40,6 +40,5 @@ Accepted ==
     LET d == TLCGet("stats").diameter IN
     IF d - 1 = Len(Rec) THEN TRUE
     ELSE /\ PrintT(<<"REJECT", d, ToJson(Rec[d])>>)
-         /\ PrintT(<<"MODEL", rp, mp, Len(buf), pc>>)
          /\ FALSE
 =============================================================================
